@@ -9,6 +9,8 @@ import Jamm.Proofs.TxLemmas
 import Jamm.Proofs.CursorLemmas
 import Jamm.Proofs.FileCheckLemmas
 import Jamm.Proofs.CommitCompose
+import Jamm.Proofs.EncodeTreeLemmas
+import Jamm.Gen.Layout
 set_option linter.unusedSectionVars false
 open Std
 
@@ -115,5 +117,25 @@ example : wfsb (K := Nat) (E := Nat) none none
     tightB (K := Nat) (E := Nat) none
       (.branch 5 (.cons 10 (.leaf 6 [(3, 0), (10, 1)]) (.cons 20 (.leaf 7 [(20, 5)]) .nil))) = true := by
   decide
+
+/-! ## Layer S, writing: a tree written node by node to its pages (the model of `Page::write_node`, tied to the
+real writer byte for byte on every commit) reads back, by unfolding from the root page, as exactly the same
+tree — so what a commit writes is what the next transaction (same process or after reopen) reads. -/
+
+theorem written_tree_reads_back (pagesize : Nat) (hhdr : Gen.layout.pageSize ≤ pagesize) (ov : Nat → Nat)
+    (t : Tree Bytes LeafVal) (s : Src)
+    (hfit : nodesFit Gen.layout pagesize ov s.size t = true)
+    (hdisj : (nodeRunsT ov t).Pairwise runsDisjoint)
+    (fuel : Nat) (hfuel : t.nodes ≤ fuel) :
+    unfoldT (pageStoreOf Gen.layout pagesize (writeTreeT Gen.layout pagesize ov t s)) fuel t.pid = some t :=
+  unfold_writeTree Gen.layout pagesize (by decide) hhdr ov t s hfit hdisj fuel hfuel
+
+/-- … and writing it disturbs no byte outside the runs of its own nodes (other buckets, the snapshot a reader
+holds, the other header) -/
+theorem written_tree_is_local (pagesize : Nat) (ov : Nat → Nat) (t : Tree Bytes LeafVal) (s : Src) (i : Nat)
+    (hfit : nodesFit Gen.layout pagesize ov s.size t = true)
+    (h : ∀ r ∈ nodeRunsT ov t, i < r.1 * pagesize ∨ (r.1 + r.2 + 1) * pagesize ≤ i) :
+    (writeTreeT Gen.layout pagesize ov t s).get i = s.get i :=
+  (writeTree_frame Gen.layout pagesize (by decide) ov t s i hfit h).1
 
 end Jamm.Props.C01
